@@ -403,7 +403,9 @@ def _update_axis(
   sketch_dk = axis_state.eigvecs
   assert sketch_dk.shape == (d, k), (sketch_dk.shape, d, k, update.shape, dim)
 
-  sketch_dk *= axis_state.eigvals[jnp.newaxis, :]
+  # Out of place: the state leaf may be a numpy array (e.g. a state restored by
+  # flax.serialization), which `*=` would modify - or fail to, if read-only.
+  sketch_dk = sketch_dk * axis_state.eigvals[jnp.newaxis, :]
   all_but_dim = [i for i in range(update.ndim) if i != dim]
   g_dm = update.transpose([dim] + all_but_dim).reshape(d, -1)
   decay = jnp.sqrt(options.second_moment_decay)
